@@ -123,8 +123,29 @@ class Repo:
                 if rel not in mc:
                     mc[rel] = module_constants(self.module(rel), set(roles()[f'{rel}::@module']))
                 out = inline_module_constants(out, mc[rel])
-                from .normalise import unroll_literal_loops
+                from .normalise import unroll_literal_loops, simple_members, inline_simple_members
                 out = unroll_literal_loops(out)
+                if '.' in qual:
+                    cname = qual.rsplit('.', 1)[0]
+                    sm = self.__dict__.setdefault('_simple_members', {})
+                    if (rel, cname) not in sm:
+                        cnode = None
+                        body = self.module(rel).body
+                        for part in cname.split('.'):
+                            cnode = next((n for n in body if isinstance(n, ast.ClassDef) and n.name == part), None)
+                            body = cnode.body if cnode is not None else []
+                        sm[(rel, cname)] = simple_members(cnode, lambda nm: f'{rel}::{cname}.{nm}' in roles())
+                    out = inline_simple_members(out, sm[(rel, cname)])
+                    from .normalise import context_managers, inline_context_managers
+                    cmk = self.__dict__.setdefault('_ctx_managers', {})
+                    if (rel, cname) not in cmk:
+                        cnode = None
+                        body = self.module(rel).body
+                        for part in cname.split('.'):
+                            cnode = next((n for n in body if isinstance(n, ast.ClassDef) and n.name == part), None)
+                            body = cnode.body if cnode is not None else []
+                        cmk[(rel, cname)] = context_managers(cnode, lambda nm: f'{rel}::{cname}.{nm}' in roles())
+                    out = inline_context_managers(out, cmk[(rel, cname)])
             if not os.environ.get('HIDVERIF_NO_NORMALISE') and roles():
                 table = roles().get(rkey) or {}
                 gens = self._generator_names(rel, qual)
@@ -141,6 +162,9 @@ class Repo:
                     if new is out:
                         break
                     out = new
+            if not os.environ.get('HIDVERIF_NO_NORMALISE') and roles():
+                from .normalise import uncollect_generators
+                out = uncollect_generators(out, self._generator_names(rel, qual))
             out = canonicalise(out, rkey)
             if not os.environ.get('HIDVERIF_NO_NORMALISE'):
                 out = desugar_ifexp(out)
